@@ -1,6 +1,7 @@
 package main
 
 import (
+	"go/constant"
 	"math/big"
 	"fmt"
 	"go/types"
@@ -715,7 +716,7 @@ func init() {
 }
 
 func init() {
-	// (sdk.Int).Mul: panics ("Int overflow") iff |x*y| needs more than 255 bits. The SDK tests this with
+	// (sdk.Int).Mul: panics ("Int overflow") iff |x*y| needs more than maxBitLen bits. The SDK tests this with
 	// BitLen(x)+BitLen(y)-1 > 255 first and BitLen(x*y) > 255 afterwards; together that is exactly |x*y| >= 2^255
 	// (BitLen(x)+BitLen(y)-1 <= BitLen(x*y)), which is expressible without a symbolic BitLen sum.
 	intrinsics["("+sdkTypes+".Int).Mul"] = func(ex *Exec, a []Value, _ *Frame) Value {
@@ -723,11 +724,17 @@ func init() {
 		x := ex.bigOf(a[0].(Struct).F[0])
 		y := ex.bigOf(a[1].(Struct).F[0])
 		prod := f.Mul(x, y)
-		over := f.Le(f.Int(pow2(255)), f.Abs(prod))
+		bits := 256
+		if c, ok := ex.prog.ImportedPackage(sdkTypes).Members["maxBitLen"].(*ssa.NamedConst); ok {
+			if v, ok2 := constant.Int64Val(c.Value.Value); ok2 {
+				bits = int(v)
+			}
+		}
+		over := f.Le(f.Int(pow2(bits)), f.Abs(prod))
 		if ex.branchNoSite(over) {
 			ex.goPanic("Int overflow")
 		}
-		ex.noteAssumption("(sdk.Int).Mul overflow test is summarised as |x*y| >= 2^255 (equivalent to the SDK's two BitLen tests)")
+		ex.noteAssumption("(sdk.Int).Mul overflow test is summarised as |x*y| >= 2^maxBitLen (maxBitLen read from the SDK; equivalent to the SDK's two BitLen tests)")
 		return Struct{[]Value{ex.newBig(prod)}}
 	}
 }
